@@ -799,6 +799,22 @@ theorem invN_stepStart {s s' : State} {t : Tid} (hK : (KMap.keys s.conns).Nodup)
             · cases e1; simp [hv, e2]
           obtain ⟨k, hk⟩ := KMap.get_of_mem_vals hmem hK
           exact inMap_of_get h hk
+    | flushold T ca =>
+      simp only [hp] at hs
+      cases hv : s.conns.vals with
+      | nil => simp only [hv] at hs; cases hs; exact invN_finishOp h t
+      | cons c r =>
+        simp only [hv] at hs; cases hs
+        apply invN_thr h t <;> try (simp; done)
+        · intro c' hpt
+          left
+          have hmem : c' ∈ s.conns.vals := by
+            simp only [pointsTo, ptr_lock, Option.some.injEq] at hpt
+            rcases hpt with e | ⟨l, e1, e2⟩
+            · simp [hv, e]
+            · cases e1; simp [hv, e2]
+          obtain ⟨k, hk⟩ := KMap.get_of_mem_vals hmem hK
+          exact inMap_of_get h hk
     | pkt k kind =>
       simp only [hp] at hs
       cases hg : s.conns.get k with
@@ -832,6 +848,7 @@ theorem invN_stepIns {s s' : State} {t : Tid} {sid : SId} (hA : InvA s) (h : Inv
   | cons op rest =>
     cases op with
     | flush => simp [hp, isPkt] at hpk
+    | flushold T ca => simp [hp, isPkt] at hpk
     | pkt k kind =>
       simp only [hp] at hs
       have hhead : headKey (s.thr t).prog = some k := by rw [hp]; rfl
@@ -944,12 +961,90 @@ theorem excl_of_mu {s : State} (hA : InvA s) {t : Tid} {c : CId}
   · rw [h1] at this; cases this
   · rw [h1] at this; exact e (Option.some.inj this).symm
 
+/-- an open connection a thread points to is the map's entry for its key -/
+theorem inMap_of_open {s : State} (h : InvN s) {t : Tid} {c : CId} (hpt : pointsTo (s.thr t) c)
+    (hcl : (s.obj c).closed = false) : inMap s c := by
+  rcases h.n3 t c hpt with h1 | h1
+  · exact h1
+  · have := h.n2 c h1; rw [hcl] at this; cases this
+
+theorem invN_flushDeliver {s : State} {t : Tid} {c : CId} {l : List CId} (hA : InvA s) (h : InvN s)
+    (hpc : (s.thr t).pc = .lock c) (hsn : (s.thr t).snap = some l) (hcl : (s.obj c).closed = false) :
+    InvN (flushDeliver s t c) := by
+  have hc : c < s.nextC := hA.ptr_lt t c (by simp [hpc])
+  have hst := hA.inited c hc
+  have hin : inMap s c := inMap_of_open h (Or.inl (by rw [hpc]; rfl)) hcl
+  unfold flushDeliver
+  dsimp only
+  cases hst2 : (s.obj c).stream with
+  | none => exact absurd hst2 hst
+  | some sid =>
+    dsimp only
+    split
+    all_goals
+      apply h.frame_benign t
+      · intro t' e; simp [e]
+      · intro c'; simp only [setThr_obj, addLog_obj, setObj_obj]; split <;> simp_all
+      · intro c'; simp only [setThr_obj, addLog_obj, setObj_obj]; split <;> simp_all
+      · intro c'; simp only [setThr_obj, addLog_obj, setObj_obj]; split <;> simp_all
+      · rfl
+      · rfl
+      · rfl
+      · rfl
+      · rfl
+      · rfl
+      · right; exact ⟨_, rfl, by simp [BenignEv]⟩
+      · simp
+      · intro c' hp'
+        simp only [pointsTo, setThr_thr, if_true, ptr_cb, Option.some.injEq] at hp'
+        rcases hp' with e | ⟨l', e1, e2⟩
+        · subst e; exact Or.inl hin
+        · exact h.n3 t c' (Or.inr ⟨l', e1, e2⟩)
+      · simp
+      · intro c' e; simp at e; subst e; exact hin
+      · intro c' f e; simp at e; rw [← e.1]; exact hcl
+      · simp
+
+theorem invN_lockClose {s : State} {t : Tid} {c : CId} {l : List CId} (hA : InvA s) (h : InvN s)
+    (hpc : (s.thr t).pc = .lock c) (hmu : (s.obj c).mu = none) (hsn : (s.thr t).snap = some l)
+    (hcl : (s.obj c).closed = false) :
+    InvN (doClose (setObj s c { s.obj c with mu := some t }) t c) := by
+  have hc : c < s.nextC := hA.ptr_lt t c (by simp [hpc])
+  have hst := hA.inited c hc
+  have hin : inMap s c := inMap_of_open h (Or.inl (by rw [hpc]; rfl)) hcl
+  have hnoins : ∀ sid', (s.thr t).pc ≠ .ins sid' := by intro sid' e; rw [hpc] at e; cases e
+  have hexcl : ∀ t', t' ≠ t → (s.thr t').pc.holds ≠ some c := by
+    intro t' e hh
+    have := (hA.mu_iff c t').2 hh
+    rw [hmu] at this; cases this
+  cases hst2 : (s.obj c).stream with
+  | none => exact absurd hst2 hst
+  | some sid =>
+    simp only [doClose, setObj_obj, if_true, hst2]
+    apply invN_close h t c sid hc hst2 hcl hin hnoins hexcl
+    · intro t' e; simp [e]
+    · simp
+    · simp [hsn]
+    · intro c' e; simp [e]
+    · simp
+    · simp [hst2]
+    · simp
+    · rfl
+    · rfl
+    · rfl
+    · rfl
+    · rfl
+    · rfl
+    · rfl
+
+theorem invN_lockSkip {s : State} {t : Tid} (h : InvN s) : InvN (advance s t) :=
+  invN_advance h t rfl (fun _ => rfl) (fun _ => rfl) (fun _ => rfl) rfl rfl rfl rfl rfl rfl (Or.inl rfl)
+
 theorem invN_stepLock {s s' : State} {t : Tid} {c : CId} (hA : InvA s) (h : InvN s)
     (hpc : (s.thr t).pc = .lock c) (hs : stepLock s t c = some s') : InvN s' := by
   have hc : c < s.nextC := hA.ptr_lt t c (by simp [hpc])
   have hst := hA.inited c hc
   have hpt : pointsTo (s.thr t) c := Or.inl (by rw [hpc]; rfl)
-  have hnoins : ∀ sid', (s.thr t).pc ≠ .ins sid' := by intro sid' e; rw [hpc] at e; cases e
   unfold stepLock at hs
   dsimp only at hs
   split at hs
@@ -959,66 +1054,33 @@ theorem invN_stepLock {s s' : State} {t : Tid} {c : CId} (hA : InvA s) (h : InvN
       cases hm : (s.obj c).mu with
       | none => rfl
       | some x => simp [hm] at hmu0
-    have hexcl := excl_of_mu hA (t := t) (Or.inl hmu)
-    have hinmap : (s.obj c).closed = false → inMap s c := by
-      intro hcl
-      rcases h.n3 t c hpt with h1 | h1
-      · exact h1
-      · have := h.n2 c h1; rw [hcl] at this; cases this
+    have hinmap : (s.obj c).closed = false → inMap s c := inMap_of_open h hpt
     cases hsn : (s.thr t).snap with
     | some l =>
       simp only [hsn] at hs
       split at hs
-      · cases hs
-        exact invN_advance h t rfl (fun _ => rfl) (fun _ => rfl) (fun _ => rfl) rfl rfl rfl rfl rfl rfl (Or.inl rfl)
-      · next hcl0 =>
-        have hcl : (s.obj c).closed = false := by simpa using hcl0
+      · -- FlushWithOptions
         split at hs
-        · cases hst2 : (s.obj c).stream with
-          | none => exact absurd hst2 hst
-          | some sid =>
-            simp only [hst2] at hs; cases hs
-            apply h.frame_benign t
-            · intro t' e; simp [e]
-            · intro c'; simp only [setThr_obj, addLog_obj, setObj_obj]; split <;> simp_all
-            · intro c'; simp only [setThr_obj, addLog_obj, setObj_obj]; split <;> simp_all
-            · intro c'; simp only [setThr_obj, addLog_obj, setObj_obj]; split <;> simp_all
-            · rfl
-            · rfl
-            · rfl
-            · rfl
-            · rfl
-            · rfl
-            · right; exact ⟨_, rfl, by simp [BenignEv]⟩
-            · simp
-            · intro c' hp'
-              simp only [pointsTo, setThr_thr, if_true, ptr_cb, Option.some.injEq] at hp'
-              rcases hp' with e | ⟨l', e1, e2⟩
-              · subst e; exact Or.inl (hinmap hcl)
-              · exact h.n3 t c' (Or.inr ⟨l, hsn, e1 ▸ e2⟩)
-            · simp
-            · intro c' e; simp at e; subst e; exact hinmap hcl
-            · intro c' f e; simp at e; rw [← e.1]; exact hcl
-            · simp
-        · cases hst2 : (s.obj c).stream with
-          | none => exact absurd hst2 hst
-          | some sid =>
-            simp only [doClose, setObj_obj, if_true, hst2] at hs; cases hs
-            apply invN_close h t c sid hc hst2 hcl (hinmap hcl) hnoins hexcl
-            · intro t' e; simp [e]
-            · simp
-            · simp [hsn]
-            · intro c' e; simp [e]
-            · simp
-            · simp [hst2]
-            · simp
-            · rfl
-            · rfl
-            · rfl
-            · rfl
-            · rfl
-            · rfl
-            · rfl
+        · cases hs; exact invN_lockSkip h
+        · next hcl0 =>
+          have hcl : (s.obj c).closed = false := by simpa using hcl0
+          split at hs
+          · split at hs
+            · cases hs; exact invN_flushDeliver hA h hpc hsn hcl
+            · cases hs; exact invN_lockSkip h
+          · split at hs
+            · cases hs; exact invN_lockClose hA h hpc hmu hsn hcl
+            · cases hs; exact invN_lockSkip h
+      · -- FlushAll
+        split at hs
+        · cases hs; exact invN_lockSkip h
+        · next hcl0 =>
+          have hcl : (s.obj c).closed = false := by simpa using hcl0
+          split at hs
+          · cases hs; exact invN_flushDeliver hA h hpc hsn hcl
+          · cases hs; exact invN_lockClose hA h hpc hmu hsn hcl
+      · next hx _ => cases hx
+      · cases hs
     | none =>
       have hpk := hA.wf_ptr t c (by simp [hpc]) hsn
       have hn4 := h.n4 t c hpc hsn
@@ -1028,6 +1090,7 @@ theorem invN_stepLock {s s' : State} {t : Tid} {c : CId} (hA : InvA s) (h : InvN
       | cons op rest =>
         cases op with
         | flush => simp [hp, isPkt] at hpk
+        | flushold T ca => simp [hp, isPkt] at hpk
         | pkt k kind =>
           have hkk : (s.obj c).key = k := by
             rw [hp, headKey_pkt] at hn4; exact (Option.some.inj hn4).symm
@@ -1047,9 +1110,9 @@ theorem invN_stepLock {s s' : State} {t : Tid} {c : CId} (hA : InvA s) (h : InvN
               · cases hs
                 apply invN_advance h t
                 · rfl
-                · intro c'; simp only [addLog_obj, setObj_obj]; split <;> simp_all
-                · intro c'; simp only [addLog_obj, setObj_obj]; split <;> simp_all
-                · intro c'; simp only [addLog_obj, setObj_obj]; split <;> simp_all
+                · intro c'; simp only [addLog_obj, setObj_obj]; split <;> (try split) <;> simp_all
+                · intro c'; simp only [addLog_obj, setObj_obj]; split <;> (try split) <;> simp_all
+                · intro c'; simp only [addLog_obj, setObj_obj]; split <;> (try split) <;> simp_all
                 · rfl
                 · rfl
                 · rfl
